@@ -189,10 +189,10 @@ def main():
     # 8.4
     out.append("### 8.4 Seeded changes and the checks that catch them")
     out.append("")
-    out.append("Five batches of sub-agents (a, b: all 20 properties; c, d, e: 10 each; 70 changes) were given only a property's text and a "
+    out.append("Six batches of sub-agents (a, b: all 20 properties; c, d, e, f: 10 each; 80 changes) were given only a property's text and a "
                "scratch worktree; each later batch was asked for a different kind of change (a deeper stage; an interaction of two "
                "features; a dependence on program size, statement order or names). Several agents independently chose the same "
-               "change (C01a = C10e, C15d = C11d = C17d, C11e = C16e); each is kept under its own id. `first run` is what the checks did when the change was first applied; `final tree` is "
+               "change (C01a = C10e, C15d = C11d = C17d, C11e = C16e, C04d = C04f); each is kept under its own id. `first run` is what the checks did when the change was first applied; `final tree` is "
                "`tools/seeded_regress.py` re-applying the stored patch to a scratch worktree of the last /repo HEAD and "
                "running the quick tier of the named checks (exit code / number of VIOLATION lines).")
     out.append("")
